@@ -14,6 +14,8 @@ import Panoptica.Model.Geometry
 import Panoptica.Model.Evaluate
 import Panoptica.Model.Pipeline
 import Panoptica.Model.Aggregator
+import Panoptica.Model.Table
+import Panoptica.Model.Purity
 open Lean Panoptica
 
 abbrev P := Except String
@@ -218,6 +220,77 @@ def aggTrace (j : Json) : P Json := do
     (w', acc.2 ++ [worldJ n w'])) (w0, [])
   pure (Json.arr trace.toArray)
 
+/-! ### tables -/
+def asWVal (j : Json) : P (Option (Tbl.WVal Nat)) :=
+  match j with
+  | .null => pure none
+  | .str "nan" => pure (some .nan)
+  | .str "inf" => pure (some .inf)
+  | .str "ninf" => pure (some .ninf)
+  | .str "none" => pure (some .none)
+  | _ => do pure (some (.fin (← asNat j)))
+
+def strJ (s : Tbl.Str) : Json := Json.str (String.ofList s)
+
+def optRatArr (j : Json) : P (List (Option Rat)) :=
+  asList (fun e => match e with | .null => pure none | _ => do pure (some (← asRat e))) j
+
+def summaryJ (s : Tbl.Summary) : Json :=
+  Json.mkObj [("avg", ratJ s.avg), ("var", ratJ s.var), ("min", ratJ s.min), ("max", ratJ s.max)]
+
+def tblOp (j : Json) : P Json := do
+  let groups := (← asList asStr (← fld j "groups")).map String.toList
+  let keys := (← asList asStr (← fld j "keys")).map String.toList
+  let subjects := (← asList asStr (← fld j "subjects")).map String.toList
+  let vals ← asList (asList asWVal) (← fld j "values")
+  -- rows as written: one cell per (group, key) in header order
+  let rows := subjects.zip vals
+  let t := Tbl.load (Tbl.mkHeader groups keys) rows
+  let gets := subjects.map (fun s => Json.arr ((groups.flatMap (fun g => keys.map (fun m =>
+      match t.get s g m with
+      | some (some x) => (Json.num (JsonNumber.fromNat x))
+      | some none => Json.str "missing"
+      | none => Json.str "no-such-entry"))).toArray))
+  pure (Json.mkObj [("keys", Json.arr (t.keys.map (fun k => Json.arr #[strJ k.1, strJ k.2])).toArray),
+                    ("header", Json.arr ((Tbl.mkHeader groups keys).map strJ).toArray),
+                    ("get", Json.arr gets.toArray)])
+
+/-! ### purity machine -/
+def asOptBool (j : Json) : P (Option Bool) :=
+  match j with
+  | .null => pure none
+  | _ => do pure (some (← asBool j))
+
+def asPureOp (j : Json) : P Pure.Op := do
+  let a ← asArr j
+  match ← asStr a[0]! with
+  | "newEvaluator" => pure (.newEvaluator { evalMetrics := ← asList asMetric a[1]!, globalMetrics := ← asList asMetric a[2]!,
+                                            saveGroupTimes := ← asBool a[3]!, tag := ← asNat a[4]! })
+  | "keys" => pure (.keys (← asNat a[1]!))
+  | "newAggregator" => pure (.newAggregator (← asNat a[1]!) (← asBool a[2]!))
+  | "evaluate" => pure (.evaluate (← asNat a[1]!) (← asNat a[2]!)
+      { resultAll := ← asBool a[3]!, saveGroupTimes := ← asOptBool a[4]!, logTimes := ← asOptBool a[5]!, verbose := ← asOptBool a[6]! })
+  | "saveConfig" => pure (.saveConfig (← asNat a[1]!))
+  | s => throw s!"unknown pure op {s}"
+
+def strsJ (l : List String) : Json := Json.arr (l.map Json.str).toArray
+
+def pureOutJ : Pure.Out → Json
+  | .unit => Json.str "unit"
+  | .keyList ks => Json.mkObj [("keys", strsJ ks)]
+  | .result c i t => Json.mkObj [("result", Json.arr #[c.tag, i, t])]
+  | .config c => Json.mkObj [("config", c.tag)]
+  | .error => Json.str "error"
+
+def pureRun (j : Json) : P Json := do
+  let ops ← asList asPureOp (← fld j "ops")
+  let (_, trace) := ops.foldl (fun (acc : Pure.World × List Json) op =>
+    let (w', o) := Pure.step acc.1 op
+    let adv := (List.range w'.evals.length).map (fun e => match Pure.advertised w' e with | some ks => strsJ ks | none => Json.null)
+    (w', acc.2 ++ [Json.mkObj [("out", pureOutJ o), ("advertised", Json.arr adv.toArray),
+                               ("agg_keys", Json.arr (w'.aggKeys.map (fun l => strsJ (w'.heap.getD l []))).toArray)]])) (Pure.empty, [])
+  pure (Json.arr trace.toArray)
+
 def handle (j : Json) : P Json := do
   let op ← asStr (← fld j "op")
   match op with
@@ -359,6 +432,20 @@ def handle (j : Json) : P Json := do
       pure (exceptJ (fun l => Json.arr (l.map (fun (n, o) => Json.arr #[Json.str n, exceptJ pipeOutJ o])).toArray)
         (evaluateGroups cfg bits gs pred ref))
   | "agg_trace" => aggTrace j
+  | "pure_run" => pureRun j
+  | "result_keys" => do
+    pure (strsJ (Pure.resultKeys (← asList asMetric (← fld j "eval_metrics")) (← asList asMetric (← fld j "global_metrics"))))
+  | "tbl" => tblOp j
+  | "rsplit" => do
+    let c := (← asStr (← fld j "cell")).toList
+    let (a, b) := Tbl.rsplitDash c
+    pure (Json.arr #[strJ a, strJ b])
+  | "summary" => do
+    let col ← optRatArr (← fld j "col")
+    pure (summaryJ (Tbl.summary col))
+  | "across" => do
+    let cols ← asList optRatArr (← fld j "cols")
+    pure (summaryJ (Tbl.acrossGroups cols))
   | s => throw s!"unknown op {s}"
 
 partial def loop (inp out : IO.FS.Stream) : IO Unit := do
